@@ -226,6 +226,15 @@ func runC17(c *core.Ctx) {
 	// ---- the optional operand of round: a string that does not spell a number is an error there as well ----------------
 	if c.Shard == 9%c.NShards && c.Begin("round with a non-numeric places operand") {
 		for _, recv := range []any{2.567, 7, "2.5", float32(1.25), -3.14159} {
+			for _, places := range []any{nil, (*int)(nil)} {
+				// nil for the optional operand: the statement does not say what it means, only that nothing may blow up
+				res := core.Render(tpls["round"], map[string]any{"a": recv, "b": places})
+				lit := core.Run(e, fmt.Sprintf("{{ %v | round: nil }}|{{ %v | round: undefined_name }}", 2.5, 7), nil)
+				c.Eval(2)
+				if res.Panic != "" || res.Shape != "" || lit.Panic != "" || lit.Shape != "" {
+					c.Violate("panic|round-nil-places", "a nil operand for round's optional places must give output or an error, never a panic", map[string]any{"a": gen.Describe(recv), "observed_variable": res.Brief(), "observed_literal": lit.Brief()})
+				}
+			}
 			for _, places := range []any{"two", "x", "", "1e", "nan", "-", "1.2.3", []any{1}, map[string]any{"a": 1}} {
 				res := core.Render(tpls["round"], map[string]any{"a": recv, "b": places})
 				lit := core.Res{IsErr: true}
@@ -251,7 +260,8 @@ func runC17(c *core.Ctx) {
 			src  string
 			b    map[string]any
 			want string
-		}{{"{{ 14 | divided_by: d }}|{{ 14 | modulo: d }}|{{ d | plus: 1 }}|{{ d | times: 2 }}", map[string]any{"d": json.Number("7")}, "2|0|8|14"}, {"{{ 5 | divided_by: d }}|{{ d | plus: 0.5 }}", map[string]any{"d": json.Number("2.5")}, "2|3"},
+		}{{"{{ 1.5 | round: p }}|{{ 12.75 | round: 24 }}|{{ 2.5 | round: 400 }}|{{ -0.125 | round: 40 }}|{{ 7 | round: 300 }}", map[string]any{"p": int64(9007199254740992)}, "1.5|12.75|2.5|-0.125|7"},
+			{"{{ 14 | divided_by: d }}|{{ 14 | modulo: d }}|{{ d | plus: 1 }}|{{ d | times: 2 }}", map[string]any{"d": json.Number("7")}, "2|0|8|14"}, {"{{ 5 | divided_by: d }}|{{ d | plus: 0.5 }}", map[string]any{"d": json.Number("2.5")}, "2|3"},
 			{"{{ 14 | divided_by: d }}|{{ d | minus: 1 }}", map[string]any{"d": uintptr(7)}, "2|6"}, {"{{ 14 | divided_by: d }}|{{ 14.0 | divided_by: d }}", map[string]any{"d": gen.NInt(4)}, "3|3"}, {"{{ 14 | divided_by: d }}", map[string]any{"d": gen.NFloat(4)}, "3.5"},
 			{"{{ 5 | divided_by: d }}|{{ -5 | divided_by: d }}", map[string]any{"d": uint64(math.MaxUint64)}, "0|0"}, {"{{ 5 | divided_by: d }}", map[string]any{"d": uint64(1) << 63}, "0"}, {"{{ 7 | divided_by: d }}", map[string]any{"d": gen.NUint(2)}, "3"},
 			{"{{ d | divided_by: 2 }}|{{ d | abs }}", map[string]any{"d": gen.NTitle("9")}, "4|9"}} {
